@@ -4,6 +4,8 @@ Tree-level statements (the view level is reads / writes by generalized index thr
 -/
 import Rmk.Proofs.TreeLaws
 import Rmk.Proofs.PartialViews
+import Rmk.Proofs.ElemLaws
+import Rmk.Proofs.PartialNested
 namespace Rmk.C17
 open Rmk
 
@@ -84,5 +86,36 @@ private def full : Node := .pair (.pair (.leaf [1]) (.leaf [2])) (.leaf [3])
 private def part : Node := .pair (.leaf [1, 2]) (.leaf [3])
 example : Summ H0 part full := .pair _ _ _ _ (.leaf (.pair (.leaf [1]) (.leaf [2]))) (.refl _)
 example : getPath part [false, true] = none ∧ getPath part [true] = getPath full [true] := by decide
+
+/-! ### element-wise reads and nested writes on partial trees -/
+
+/-- element reads, `len()` and slice reads on a partial tree either fail or return exactly what the complete
+    tree returns (never wrong data) -/
+theorem elem_read (H : Hash) (t : Ty) (p n : Node) (i : Nat) (h : Summ H p n) :
+    Impl.readElem H t p i = none ∨ Impl.readElem H t p i = Impl.readElem H t n i :=
+  ElemLaws.readElem_summ_or H t p n i h
+
+theorem len_read (H : Hash) (t : Ty) (p n : Node) (h : Summ H p n) :
+    Impl.viewLen H t p = none ∨ Impl.viewLen H t p = Impl.viewLen H t n :=
+  ElemLaws.viewLen_summ_or H t p n h
+
+theorem slice_read (H : Hash) (t : Ty) (p n : Node) (a b : Nat) (h : Summ H p n) :
+    Impl.sliceRead H t p a b = none ∨ Impl.sliceRead H t p a b = Impl.sliceRead H t n a b :=
+  ElemLaws.sliceRead_summ_or H t p n a b h
+
+/-- a mutation THROUGH A CHILD VIEW of a partial tree (child taken at key `i`, mutated, written back) either fails
+    or succeeds on the complete tree too, with results that are again partial / complete versions of each other
+    and have the same root (every mutator but `append`, no hypothesis on the hash) -/
+theorem nested_write (H : Hash) (t : Ty) (p n : Node) (i : Nat) (op : Impl.Op)
+    (hop : ∀ v, op ≠ .append v) (h : Summ H p n) :
+    PartialNested.subApply H t p i op = none ∨ ∃ p' n', PartialNested.subApply H t p i op = some p' ∧
+      PartialNested.subApply H t n i op = some n' ∧ Summ H p' n' ∧ p'.root H = n'.root H :=
+  PartialNested.subApply_agrees t p n i op hop h
+
+/-- all mutators, `append` included, when no non-zero subtree hashes like a zero subtree -/
+theorem nested_write_all (H : Hash) (hZ : PartialViews.ZeroInj H) (t : Ty) (p n : Node) (i : Nat) (op : Impl.Op) (p' : Node)
+    (h : Summ H p n) (hs : PartialNested.subApply H t p i op = some p') :
+    ∃ n', PartialNested.subApply H t n i op = some n' ∧ Summ H p' n' :=
+  PartialNested.subApply_summ_all hZ h hs
 
 end Rmk.C17
